@@ -204,14 +204,6 @@ func reflShapes() []reflShape {
 			return fmt.Sprintf("type %[1]sReal struct {\n\t%[1]sA int\n}\n\ntype %[1]sT = %[1]sReal\n", p),
 				p + "T", p + "T{" + p + "A: 7}", []string{p + "A"}, fmt.Sprintf(`{"%[1]sA": 3}`, p)
 		}},
-		{"ifacefield", func(p string, r *rand.Rand) (string, string, string, []string, string) {
-			// A struct with an interface-typed field: the frame is filled in first (a store of a concrete
-			// struct into the field) and handed to reflection afterwards; the dynamic type behind the
-			// interface is reachable from the reflected value and must keep its names too.
-			decls := fmt.Sprintf("type %[1]sKind interface{ %[1]sK() string }\n\ntype %[1]sDyn struct {\n\t%[1]sDA int\n\t%[1]sDB string\n}\n\nfunc (%[1]sDyn) %[1]sK() string { return \"k\" }\n\ntype %[1]sT struct {\n\t%[1]sA int\n\t%[1]sF %[1]sKind\n}\n", p)
-			val := fmt.Sprintf("func() %[1]sT{ v := %[1]sT{}; v.%[1]sA = 1; v.%[1]sF = %[1]sDyn{%[1]sDA: 2, %[1]sDB: \"d\"}; return v }()", p)
-			return decls, p + "T", val, []string{p + "A", p + "F"}, fmt.Sprintf(`{"%sA": 3}`, p)
-		}},
 		{"unexported", func(p string, r *rand.Rand) (string, string, string, []string, string) {
 			lp := strings.ToLower(p[:1]) + p[1:]
 			return fmt.Sprintf("type %[1]sT struct {\n\t%[1]sA int\n\t%[2]sb string\n\t%[2]sc *%[1]sT\n}\n", p, lp),
@@ -243,22 +235,6 @@ func genReflProg(r *rand.Rand, n int, flows []string, onlyShapes []string) *Refl
 		sh := shapes[r.Intn(len(shapes))]
 		flow := flows[r.Intn(len(flows))]
 		decl := []string{"main", "dep"}[r.Intn(2)]
-		if k == 0 && onlyShapes == nil {
-			// every program has one frame that is filled in first and marshalled afterwards
-			for _, cand := range shapes {
-				if cand.name == "ifacefield" {
-					sh = cand
-				}
-			}
-		}
-		if sh.name == "ifacefield" {
-			// only flows that look at the *value* can reach the dynamic type; the value expression is a
-			// call, which has no address
-			flow = []string{"json", "json", "jsonroundtrip", "valueof", "helper"}[r.Intn(5)]
-			if k == 0 {
-				flow = "json"
-			}
-		}
 		p := "Zq" + randAlnum(r, 6) + fmt.Sprintf("k%d", k)
 		decls, typeName, valueExpr, fields, jsonIn := sh.decl(p, r)
 		q := ""
